@@ -219,6 +219,9 @@ def gen(ctx):
         add("late-%s-str-odd" % cont, "late", cont, base, late=[S(5, b"a late comment"), S(2, b"(c) late")], ch=1, sub=3, frames=rng.choice([1, 3, 5, 7]))
         add("late-%s-str-odd-only" % cont, "late", cont, [], late=[S(1, b"late title")], ch=1, sub=3, frames=rng.choice([1, 3, 5, 7]))
         add("late-%s-str-long" % cont, "late", cont, base, late=[S(5, b"a late comment")], ch=2, sub=2, frames=rng.choice([500, 2047, 4096]))
+        if cont in M.STR_SUPPORT and cont != "aiff":      # replacing an early string after the audio: the header shrinks (AIFF: known-finding class)
+            add("late-%s-replace" % cont, "late", cont, base, late=[S(1, text(rng, rng.choice([1, 3, 40]), ascii_only=True))], ch=2)
+            add("late-%s-replace2" % cont, "late", cont, [S(1, b"T"), S(4, b"A")], late=[S(1, b"New"), S(4, b"B")], ch=1)
         # every kind on a container without a place for it, before the audio
         add("unsup-%s" % cont, "unsupported", cont, base + [bext_cmd(rng, b"x\n"), cart_cmd(rng, b"y"), M.setcues_line("h0", cues(rng, 2)) if cont not in ("aiff",) else S(1, b"Title"),
                                                             chmap_cmd((2, 3))] + [S(ty, b"v%d" % ty) for ty in (6, 7, 8, 9, 16)], ch=2)
